@@ -21,6 +21,8 @@ FIXES = [
     ('d7fc2e4', 'C14', 'D13 spooled file rollover position'),
     ('2b4e2ef+2afec72', 'C06', 'D14 line-leading && outside parentheses (with the later D15)'),
     ('2b4e2ef', 'C06', 'D15 operands inside parentheses'),
+    ('8b7a4dd', 'C10', 'D16 flush before a process writes to the output file'),
+    ('5780fb7', 'C10', 'D16b flush before a transforming process writes to the output file'),
 ]
 
 
